@@ -5,6 +5,7 @@ import (
 	"encoding/json"
 	"fmt"
 	"os"
+	"sort"
 	"strings"
 	"time"
 
@@ -223,6 +224,19 @@ func c16Run(c c16Case, afterOps func(model string)) (string, []Violation, int) {
 		}
 	}
 	defer func() { zzvrt.MapOrderSeed = 0 }()
+	// "the list of all tags contains exactly the names registered" - in every lifecycle state
+	baseTags := strings.Join(log.GetAllTags(), ",")
+	tagsOK := func(step string) {
+		want := baseTags
+		if newTag != nil {
+			l := append(strings.Split(baseTags, ","), "_vfz_new")
+			sort.Strings(l)
+			want = strings.Join(l, ",")
+		}
+		if got := strings.Join(log.GetAllTags(), ","); got != want {
+			fail("registry-contents", fmt.Sprintf("%s (state %s): GetAllTags()=%s, registered=%s", step, m.mode, got, want))
+		}
+	}
 	for i, o := range c.Ops {
 		step := fmt.Sprintf("step %d %s", i, opNames[o])
 		zzvrt.MapOrderSeed = 0
@@ -347,8 +361,10 @@ func c16Run(c c16Case, afterOps func(model string)) (string, []Violation, int) {
 				}
 			}
 		}
+		tagsOK(step)
 	}
 	zzvrt.MapOrderSeed = 0
+	tagsOK("after the operations")
 	if afterOps != nil {
 		hs := ""
 		for _, h := range []string{"aux", "ghost"} {
@@ -461,7 +477,7 @@ func confReset2() {
 // length over the alphabet - up to the abstraction of the state identity (pool and cache contents,
 // channel contents and closure variables are not part of it).
 func init() {
-	parts = append(parts, partDef{prop: "C16", name: "c16/reachable-states", tiers: "qt", run: func(r *runCtx, p *Part) {
+	bfs := func(r *runCtx, p *Part) {
 		// every shard runs the (small) search itself and then cross-checks its own slice of the unpruned sequences
 		maxDepth := 12
 		p.Bounds = fmt.Sprintf("breadth-first search over %d operations (the 12 of the enumeration + a configuration of file-owning loggers incl. an asynchronous rolling-file logger, all 15 entry points, an invalid registration; each Refresh under every iteration order of maps of <= 3 keys: 6 variants) from the reset package, successors deduplicated by (deep hash of the package state, model state), depth <= %d or until no new state appears", nOpsExt, maxDepth)
@@ -607,7 +623,8 @@ func init() {
 		if len(p.Samples) == 0 && sample != nil {
 			p.Samples = append(p.Samples, sample)
 		}
-	}, replay: func(raw json.RawMessage) []Violation {
+	}
+	replayBFS := func(raw json.RawMessage) []Violation {
 		var c c16Case
 		json.Unmarshal(raw, &c)
 		obs, vs, _ := c16Check(c)
@@ -631,7 +648,17 @@ func init() {
 			}
 		}
 		return vs
-	}})
+	}
+	parts = append(parts, partDef{prop: "C16", name: "c16/reachable-states", tiers: "qt", run: bfs, replay: replayBFS})
+	// the same search registered for C18: the registry clauses (GetAllTags is exactly the set of registered
+	// names, registration is idempotent, an invalid name registers nothing) hold in every lifecycle state
+	parts = append(parts, partDef{prop: "C18", name: "c18/registry-through-the-lifecycle", tiers: "qt", run: func(r *runCtx, p *Part) {
+		if r.shard%4 == 0 { // four shards share the cross-check; the others have the predicate enumerations
+			r2 := *r
+			r2.shard, r2.nshards = r.shard/4, (r.nshards+3)/4
+			bfs(&r2, p)
+		}
+	}, replay: replayBFS})
 }
 
 func init() {
